@@ -10,6 +10,7 @@ import (
 	"github.com/cybergarage/go-redis/redis"
 	"pgregory.net/rapid"
 
+	"verif/internal/cmdspec"
 	"verif/internal/connsim"
 	"verif/internal/doubles"
 	"verif/internal/resp"
@@ -21,7 +22,11 @@ type c13Case struct {
 	Password string    `json:"password,omitempty"` // empty: no password required
 	Conns    int       `json:"conns"`
 	Steps    []c08Step `json:"steps"`
+	TLS      bool      `json:"tls,omitempty"` // the connections are TLS connections (served with a TLS state)
 }
+
+// c13Strict: data commands of which an authorized connection must make at least one handler call.
+var c13Strict = map[string]bool{"GET": true, "SET": true, "HGET": true, "LPUSH": true, "INCR": true, "MGET": true, "ZCARD": true}
 
 func (c c13Case) describe() string {
 	var parts []string
@@ -52,12 +57,19 @@ func evalC13(c c13Case) *Failure {
 		}
 		defer srv.Stop()
 	}
-	m, err := connsim.NewMulti(srv, c.Conns, serveTimeout())
+	var served connsim.Server = srv
+	if c.TLS {
+		served = tlsServed{srv}
+	}
+	m, err := connsim.NewMulti(served, c.Conns, serveTimeout())
 	if err != nil {
 		return failf("harness|multi", "opening connections: %v", err)
 	}
 	defer m.CloseAll()
 	what := c.describe()
+	if c.TLS {
+		what = "TLS connections; " + what
+	}
 	type state struct {
 		db    int
 		auth  bool
@@ -84,6 +96,14 @@ func evalC13(c c13Case) *Failure {
 		name := strings.ToUpper(string(*step.Req[0]))
 		desc := fmt.Sprintf("step %d (c%d: %s) answered %s", si, step.Conn, reqPtrString(step.Req), reply)
 		newCalls := rec.Snapshot()[before:]
+		if !cmdspec.Has(name) && name != "REMEMBER" {
+			// a command this harness has no grammar for (registered by the server under test): what it shows its
+			// handler calls is its own business, but it must not run unauthorized and must leave the connection's state alone
+			if !me.auth && len(newCalls) > 0 {
+				return failf("c13|executed-unauthorized", "%s: %s on an unauthorized connection", what, desc)
+			}
+			continue
+		}
 		for _, cl := range newCalls {
 			if cl.ConnID != step.Conn {
 				return failf("c13|wrong-connection", "%s: %s: the handler call carried connection %d", what, desc, cl.ConnID)
@@ -143,6 +163,12 @@ func evalC13(c c13Case) *Failure {
 				return failf("c13|executed-unauthorized", "%s: %s on an unauthorized connection", what, desc)
 			}
 		default: // data command
+			if !c13Strict[name] {
+				if !me.auth && len(newCalls) > 0 {
+					return failf("c13|executed-unauthorized", "%s: %s on an unauthorized connection", what, desc)
+				}
+				break
+			}
 			if me.auth && len(newCalls) == 0 {
 				return failf("c13|not-executed", "%s: %s: no handler call on an authorized connection", what, desc)
 			}
@@ -217,7 +243,7 @@ func init() {
 }
 
 func TestC13(t *testing.T) {
-	h := newHarness(t, "C13", "2..8 scripted connections of one server; per connection a script of SELECT n (also unusual indexes) / AUTH (exact or clearly wrong password) / CONFIG SET requirepass|databases by another connection / data commands (GET, SET, HGET, LPUSH, INCR) / REMEMBER t (an application executor storing a token in the connection's sync.Map); "+
+	h := newHarness(t, "C13", "2..8 scripted connections of one server; per connection a script of SELECT n (also unusual indexes) / AUTH (exact or clearly wrong password) / CONFIG SET requirepass|databases by another connection / data commands (the fixed seven, any well-formed command of the grammar, and every command the server has registered beyond the grammar, with generic arguments), on plain or TLS connections (GET, SET, HGET, LPUSH, INCR) / REMEMBER t (an application executor storing a token in the connection's sync.Map); "+
 		"password required in half of the cases. SYSTEMATIC: all 20 request-granularity interleavings of two connections with 3 requests each, for all script pairs over a 4-symbol alphabet (thorough; quick: a third of them); RANDOM: up to 8 connections, up to 6 requests each, random interleavings. "+
 		"Oracle: every handler call must show conn.Database(), conn.IsAuthrized() and the stored token of THAT connection's own model. Non-trivial: at the time of some handler call two connections hold different database ids, authorization states or tokens. Distinct = distinct (password, step sequence).")
 	defer h.Finish()
@@ -337,8 +363,16 @@ sys:
 		}
 	}
 
+	// every command the server under test has registered, beyond the ones the grammar knows
+	var extraNames []string
+	for _, n := range redis.NewServer().VerifCommandNames() {
+		if !cmdspec.Has(strings.ToUpper(n)) {
+			extraNames = append(extraNames, n)
+		}
+	}
+	h.Col.Note("registered_commands_without_grammar", len(extraNames))
 	h.Rapid("random", h.N(5000, 200000), func(rt *rapid.T) {
-		c := c13Case{Conns: rapid.IntRange(2, 8).Draw(rt, "conns")}
+		c := c13Case{Conns: rapid.IntRange(2, 8).Draw(rt, "conns"), TLS: rapid.IntRange(0, 3).Draw(rt, "tls") == 0}
 		if rapid.Bool().Draw(rt, "pw") {
 			c.Password = "sesame"
 		}
@@ -346,7 +380,27 @@ sys:
 		for i := 0; i < steps; i++ {
 			who := rapid.IntRange(0, c.Conns-1).Draw(rt, "who")
 			var r []*resp.Bin
-			switch rapid.IntRange(0, 9).Draw(rt, "kind") {
+			switch rapid.IntRange(0, 11).Draw(rt, "kind") {
+			case 10:
+				// any command of the grammar, well-formed (every handler call it makes is checked against the connection's state)
+				name := rapid.SampledFrom(cmdspec.Names).Draw(rt, "anycmd")
+				switch name {
+				case "AUTH", "SELECT", "QUIT", "CONFIG":
+					name = "TYPE"
+				}
+				g := &cmdspec.G{T: rt, Avoid: h.Avoid, Plain: true}
+				for _, a := range g.Gen(name).Args {
+					r = append(r, bp(string(a)))
+				}
+			case 11:
+				if len(extraNames) == 0 {
+					r = []*resp.Bin{bp("GET"), bp("k")}
+					break
+				}
+				r = []*resp.Bin{bp(rapid.SampledFrom(extraNames).Draw(rt, "extra"))}
+				for j, k := 0, rapid.IntRange(0, 3).Draw(rt, "nextra"); j < k; j++ {
+					r = append(r, bp(rapid.SampledFrom([]string{"k", "n", "0", "1", "3", "x"}).Draw(rt, "extraarg")))
+				}
 			case 0:
 				r = []*resp.Bin{bp("SELECT"), bp(strconv.Itoa(rapid.IntRange(0, 15).Draw(rt, "db")))}
 			case 1:
@@ -375,7 +429,7 @@ sys:
 			}
 			c.Steps = append(c.Steps, c08Step{Conn: who, Req: r})
 		}
-		h.Col.Case(nontrivial(c), []byte(c.describe()), fmt.Sprintf("random-%dconn", c.Conns))
+		h.Col.Case(nontrivial(c), []byte(fmt.Sprint(c.TLS, c.describe())), fmt.Sprintf("random-%dconn", c.Conns))
 		h.Fail(rt, "c13.steps", c, evalC13(c))
 	})
 }
